@@ -105,3 +105,6 @@ def run(P: Program, R: Report, tier: str) -> None:
         R.check(good, "R08.3", m, c, "the incremental path masks the node's own frame with the node's own id",
                 f"mask is np.where({left} == {right}, {keep}, {other})", via="provenance")
     update_guards(P, R, ann, "R08.4")
+    from .annot import compute_is_memoryless
+
+    compute_is_memoryless(P, R, ann, "R08.5")
